@@ -3,3 +3,239 @@ From Coq Require Import List NArith ZArith Bool Arith Lia Permutation.
 From PyD Require Import Base.Str Base.Dec Model.Hier Model.Mrs Model.Iso Model.SimpleMrs Model.SimpleDmrs
   Proofs.SimpleMrsP.
 Import ListNotations.
+
+Arguments Z_to_dec : simpl never.
+Arguments dec_to_Z : simpl never.
+
+Lemma lower_Z_to_dec z : ascii_lower (Z_to_dec z) = Z_to_dec z.
+Proof.
+  unfold ascii_lower. rewrite <- (map_id (Z_to_dec z)) at 2. apply map_ext_in.
+  intros c Hc. destruct (Z_to_dec_chars z c Hc) as [->|Hd]; [reflexivity|].
+  unfold is_ascii_digit in Hd. apply andb_true_iff in Hd. destruct Hd as [H1 H2].
+  apply N.leb_le in H1. apply N.leb_le in H2.
+  destruct (N.leb 65 c) eqn:E; [|reflexivity]. apply N.leb_le in E. lia.
+Qed.
+
+(* ---------------------------------------------------------------- *)
+(* nodes *)
+
+Definition ntoks (kv : str * str) : list dtok := [DSYM (fst kv); DEQ; DSYM (snd kv)].
+
+Lemma dec_nprops_enc L : forall acc rest,
+  NoDup (map fst L) -> (forall k, In k (map fst L) -> ~ In k (map fst acc)) -> Forall norm_kv L ->
+  dec_nprops (flat_map ntoks L ++ DRBRK :: rest) acc = Some (acc ++ L, rest).
+Proof.
+  induction L as [|[k v] L IH]; intros acc rest Hnd Hdis Hn.
+  - cbn. rewrite app_nil_r. reflexivity.
+  - cbn [flat_map ntoks fst snd app dec_nprops].
+    inversion Hnd as [|? ? Hk Hnd']; subst. inversion Hn as [|? ? [Hu Hl] Hn']; subst. cbn [fst snd] in Hu, Hl.
+    rewrite Hu, Hl. rewrite dict_set_notin by (apply Hdis; left; reflexivity).
+    rewrite IH; [rewrite <- app_assoc; reflexivity | exact Hnd' | | exact Hn'].
+    intros k' Hk'. rewrite map_app, in_app_iff. cbn. intros [H|[H|[]]].
+    + apply (Hdis k'); [right; exact Hk' | exact H].
+    + subst. contradiction.
+Qed.
+
+Definition proj_node (p l : bool) (n : dnode) : dnode :=
+  {| n_id := n_id n; n_pred := n_pred n; n_type := n_type n; n_props := if p then n_props n else [];
+     n_carg := n_carg n; n_lnk := if l then n_lnk n else LNone |}.
+
+Definition node_body (p l : bool) (n : dnode) : list dtok :=
+  DSYM (n_pred n) :: enc_glnk l (n_lnk n)
+  ++ match n_carg n with Some c => [DLPAR; DDQ (escape c); DRPAR] | None => [] end
+  ++ match n_type n with Some t => [DSYM t] | None => [] end
+  ++ (if p then enc_nprops (n_props n) else [])
+  ++ [DRBRK; DSEMI].
+
+Lemma enc_node_shape p l n : enc_node p l n = DSYM (Z_to_dec (n_id n)) :: DLBRK :: node_body p l n.
+Proof. reflexivity. Qed.
+
+Lemma dec_node_enc p l n rest : norm_props (n_props n) ->
+  dec_node (Z_to_dec (n_id n)) (node_body p l n ++ rest) = Some (proj_node p l n, rest).
+Proof.
+  intros [Hnd Hn]. unfold node_body. cbn [app dec_node].
+  set (ps := if p then n_props n else []).
+  replace (if p then enc_nprops (n_props n) else []) with (enc_nprops ps) by (subst ps; destruct p; reflexivity).
+  assert (Hps : NoDup (map fst ps) /\ Forall norm_kv ps).
+  { subst ps. destruct p; [split; assumption | split; constructor]. }
+  destruct Hps as [Hnd' Hn'].
+  assert (Hprops : forall X, dec_nprops ((enc_nprops ps ++ [DRBRK; DSEMI]) ++ X) [] = Some (ps, DSEMI :: X)).
+  { intros X. rewrite <- app_assoc. cbn [app]. unfold enc_nprops. change (fun kv : str * str => [DSYM (fst kv); DEQ; DSYM (snd kv)]) with ntoks.
+    rewrite dec_nprops_enc; [reflexivity | exact Hnd' | intros k _ [] | exact Hn']. }
+  (* the tail after the type *)
+  set (tailp := enc_nprops ps ++ [DRBRK; DSEMI]).
+  assert (Hhead : match tailp ++ rest with DEQ :: _ => False | DLNK _ :: _ => False | DLPAR :: _ => False | _ => True end).
+  { subst tailp. unfold enc_nprops. destruct ps as [|[k v] ps']; exact I. }
+  assert (Htype : dec_type ((match n_type n with Some t => [DSYM t] | None => [] end ++ tailp) ++ rest)
+                  = (n_type n, tailp ++ rest)).
+  { destruct (n_type n) as [t|]; cbn [app].
+    - revert Hhead. destruct (tailp ++ rest) as [|[] ?]; intros Hhead; try reflexivity. exfalso; exact Hhead.
+    - subst tailp. unfold enc_nprops. destruct ps as [|[k v] ps']; reflexivity. }
+  assert (Hcarg : forall Y, match Y with DLPAR :: _ => False | _ => True end ->
+            dec_carg (match n_carg n with Some c => [DLPAR; DDQ (escape c); DRPAR] | None => [] end ++ Y) = Some (n_carg n, Y)).
+  { intros Y HY. destruct (n_carg n) as [c|]; cbn; [rewrite unescape_escape; reflexivity|].
+    destruct Y as [|[] ?]; try reflexivity. contradiction. }
+  assert (Hlnk : forall Y, match Y with DLNK _ :: _ => False | _ => True end ->
+            ddec_lnk (enc_glnk l (n_lnk n) ++ Y) = ((if l then n_lnk n else LNone), Y)).
+  { intros Y HY. unfold enc_glnk. destruct l; [destruct (n_lnk n)|]; cbn; try reflexivity;
+      destruct Y as [|[] ?]; try reflexivity; contradiction. }
+  rewrite <- !app_assoc.
+  set (Y2 := match n_type n with Some t => [DSYM t] | None => [] end ++ tailp ++ rest).
+  assert (HY2 : match Y2 with DLPAR :: _ => False | DLNK _ :: _ => False | _ => True end).
+  { subst Y2. destruct (n_type n); [exact I|]. cbn [app]. revert Hhead. destruct (tailp ++ rest) as [|[] ?]; intros Hhead; try exact I; exfalso; exact Hhead. }
+  rewrite Hlnk.
+  2:{ destruct (n_carg n); [exact I|]. change (match Y2 with DLNK _ :: _ => False | _ => True end).
+      revert HY2; destruct Y2 as [|[] ?]; intros HY2; try exact I; exact HY2. }
+  fold Y2. rewrite Hcarg by (revert HY2; destruct Y2 as [|[] ?]; intros HY2; try exact I; exact HY2).
+  subst Y2. rewrite app_assoc. rewrite Htype. subst tailp. rewrite Hprops.
+  rewrite dec_to_Z_to_dec. reflexivity.
+Qed.
+
+(* ---------------------------------------------------------------- *)
+(* links *)
+
+Definition link_ok (k : glink) : Prop :=
+  let '(s, e, role, post) := k in s <> 0%Z /\ role <> Some [].
+
+Definition link_body (k : glink) : list dtok :=
+  let '(s, e, role, post) := k in
+  match role with Some (c :: r) => [DSYM (c :: r)] | _ => [] end
+  ++ [DSLASH; DSYM post;
+      DARROW (if negb (role_empty role) || negb (str_eqb post EQ_POST) then ARROW_DIR else ARROW_UND);
+      DSYM (Z_to_dec e); DSEMI].
+
+Lemma dec_link_enc s e role post rest : role <> Some [] ->
+  dec_link (Z_to_dec s) (link_body (s, e, role, post) ++ rest) = Some ((s, e, role, post), rest).
+Proof.
+  intros Hr. unfold link_body, dec_link. destruct role as [[|c r]|]; [contradiction Hr; reflexivity | |];
+    cbn [app]; rewrite !dec_to_Z_to_dec; reflexivity.
+Qed.
+
+(* ---------------------------------------------------------------- *)
+(* the item loop *)
+
+Lemma dec_items_links links : forall accn accl fuel rest,
+  Forall link_ok links -> (length (flat_map enc_link links) < fuel)%nat ->
+  dec_items fuel (flat_map enc_link links ++ DRBRACE :: rest) accn accl = Some (accn, accl ++ links, rest).
+Proof.
+  induction links as [|[[[s e] role] post] links IH]; intros accn accl fuel rest Hok Hfuel.
+  - destruct fuel as [|fuel]; [cbn in Hfuel; lia|]. cbn. rewrite app_nil_r. reflexivity.
+  - inversion Hok as [|? ? Hlk Hok']; subst. cbn in Hlk. destruct Hlk as [Hs Hr].
+    destruct fuel as [|fuel]; [cbn in Hfuel; lia|].
+    cbn [flat_map]. change (enc_link (s, e, role, post)) with (DSYM (Z_to_dec s) :: DCOLON :: link_body (s, e, role, post)).
+    cbn [app dec_items]. rewrite <- app_assoc. rewrite dec_link_enc by exact Hr.
+    rewrite IH; [rewrite <- app_assoc; reflexivity | exact Hok' |].
+    cbn [flat_map] in Hfuel. rewrite app_length in Hfuel.
+    change (enc_link (s, e, role, post)) with (DSYM (Z_to_dec s) :: DCOLON :: link_body (s, e, role, post)) in Hfuel.
+    cbn [length] in Hfuel. lia.
+Qed.
+
+Lemma dec_items_nodes p l nodes : forall links accn accl fuel rest,
+  Forall (fun n => norm_props (n_props n)) nodes -> Forall link_ok links ->
+  (length (flat_map (enc_node p l) nodes ++ flat_map enc_link links) < fuel)%nat ->
+  dec_items fuel (flat_map (enc_node p l) nodes ++ flat_map enc_link links ++ DRBRACE :: rest) accn accl
+  = Some (accn ++ map (proj_node p l) nodes, accl ++ links, rest).
+Proof.
+  induction nodes as [|n nodes IH]; intros links accn accl fuel rest Hn Hl Hfuel.
+  - cbn [flat_map app map]. rewrite app_nil_r. apply dec_items_links; [exact Hl | exact Hfuel].
+  - inversion Hn as [|? ? Hn1 Hn']; subst.
+    destruct fuel as [|fuel]; [cbn in Hfuel; lia|].
+    cbn [flat_map]. rewrite enc_node_shape. cbn [app dec_items]. rewrite <- app_assoc.
+    rewrite dec_node_enc by exact Hn1.
+    rewrite IH; [cbn [map]; rewrite <- app_assoc; reflexivity | exact Hn' | exact Hl |].
+    cbn [flat_map] in Hfuel. rewrite enc_node_shape in Hfuel. cbn [app length] in Hfuel.
+    rewrite !app_length in Hfuel. rewrite app_length. lia.
+Qed.
+
+(* ---------------------------------------------------------------- *)
+(* the whole graph *)
+
+Definition proj_dmrs (p l : bool) (g : dmrs) : dmrs :=
+  {| g_top := g_top g; g_index := g_index g; g_nodes := map (proj_node p l) (g_nodes g); g_links := g_links g;
+     g_lnk := proj_lnk l (g_lnk g); g_surface := if l then g_surface g else None; g_ident := g_ident g |}.
+
+Definition dmrs_wf (g : dmrs) : Prop :=
+  Forall (fun n => norm_props (n_props n)) (g_nodes g) /\ Forall link_ok (g_links g).
+
+Lemma norm_top_id top links : Forall link_ok links -> norm_top top links = (top, links).
+Proof.
+  induction links as [|[[[s e] r] p] links IH]; intros H; [reflexivity|].
+  inversion H as [|? ? Hk H']; subst. cbn in Hk. destruct Hk as [Hs _].
+  cbn [norm_top]. destruct (Z.eqb s 0) eqn:E; [apply Z.eqb_eq in E; contradiction|].
+  rewrite IH by exact H'. reflexivity.
+Qed.
+
+Definition not_lbrk (ts : list dtok) : Prop := match ts with DLBRK :: _ => False | _ => True end.
+
+Lemma dec_attrs_enc l g X : not_lbrk X ->
+  dec_attrs (enc_attrs l g ++ X) =
+  Some (proj_lnk l (g_lnk g), (if l then g_surface g else None), option_map Z_to_dec (g_top g),
+        option_map Z_to_dec (g_index g), X).
+Proof.
+  intros HX. unfold enc_attrs, proj_lnk.
+  destruct l; destruct (lnk_truthy (g_lnk g)) eqn:Et; destruct (g_surface g) as [sf|];
+    destruct (g_top g) as [t|]; destruct (g_index g) as [i|];
+    cbn [app andb dec_attrs ddec_lnk dec_nprops option_map];
+    rewrite ?unescape_escape, ?lower_Z_to_dec;
+    try reflexivity;
+    try (destruct X as [|[] ?]; try reflexivity; exfalso; exact HX).
+Qed.
+
+Lemma opt_int_enc (o : option Z) : opt_int (option_map Z_to_dec o) = Some o.
+Proof. destruct o as [z|]; cbn; [rewrite dec_to_Z_to_dec|]; reflexivity. Qed.
+
+Lemma items_not_lbrk p l nodes links rest :
+  not_lbrk (flat_map (enc_node p l) nodes ++ flat_map enc_link links ++ DRBRACE :: rest).
+Proof.
+  destruct nodes as [|n nodes]; [|exact I]. cbn [flat_map app].
+  destruct links as [|[[[s e] r] po] links]; exact I.
+Qed.
+
+Theorem dec_enc_dmrs p l g rest : dmrs_wf g ->
+  dec_dmrs (enc_dmrs p l g ++ rest) = Some (proj_dmrs p l g, rest).
+Proof.
+  intros [Hn Hl]. unfold enc_dmrs.
+  set (items := flat_map (enc_node p l) (g_nodes g) ++ flat_map enc_link (g_links g) ++ DRBRACE :: rest).
+  assert (Hshape : (DSYM DMRS_W :: match g_ident g with Some i => [DSYM i] | None => [] end
+                     ++ DLBRACE :: enc_attrs l g ++ flat_map (enc_node p l) (g_nodes g)
+                     ++ flat_map enc_link (g_links g) ++ [DRBRACE]) ++ rest
+                   = DSYM DMRS_W :: match g_ident g with Some i => [DSYM i] | None => [] end
+                     ++ DLBRACE :: enc_attrs l g ++ items).
+  { subst items. cbn [app]. rewrite <- !app_assoc. cbn [app]. rewrite <- !app_assoc. reflexivity. }
+  rewrite Hshape. clear Hshape.
+  cbn [dec_dmrs form_is_dmrs]. change (str_eqb DMRS_W DMRS_W) with true. cbn iota.
+  assert (Hid : (match (match g_ident g with Some i => [DSYM i] | None => [] end ++ DLBRACE :: enc_attrs l g ++ items) with
+                 | DSYM i :: r => (Some i, r)
+                 | _ => (None, match g_ident g with Some i => [DSYM i] | None => [] end ++ DLBRACE :: enc_attrs l g ++ items)
+                 end) = (g_ident g, DLBRACE :: enc_attrs l g ++ items)).
+  { destruct (g_ident g); reflexivity. }
+  rewrite Hid. clear Hid.
+  rewrite dec_attrs_enc by (subst items; apply items_not_lbrk).
+  subst items.
+  rewrite (dec_items_nodes p l (g_nodes g) (g_links g) [] [] _ rest Hn Hl).
+  2:{ rewrite !app_length. cbn [length]. lia. }
+  rewrite !opt_int_enc. rewrite norm_top_id by exact Hl. reflexivity.
+Qed.
+
+(* non-vacuity *)
+Definition ex_g : dmrs :=
+  {| g_top := Some 10001%Z; g_index := Some 10001%Z;
+     g_nodes := [ {| n_id := 10000; n_pred := [110;97;109;101;100]%N; n_type := Some [120]%N;
+                     n_props := [([80;69;82;83]%N, [51]%N); ([78;85;77]%N, [115;103]%N)];
+                     n_carg := Some [75;34;105;109]%N; n_lnk := LChar 0 3 |};
+                  {| n_id := 10001; n_pred := [95;98;97;114;107;95;118;95;49]%N; n_type := None;
+                     n_props := [([84;69;78;83;69]%N, [112;114;101;115]%N)]; n_carg := None; n_lnk := LToks [1;2]%Z |} ];
+     g_links := [ (10001, 10000, Some [65;82;71;49]%N, [78;69;81]%N)%Z; (10000, 10001, None, [69;81]%N)%Z ];
+     g_lnk := LChar 0 9; g_surface := Some [97;34;98]%N; g_ident := Some [49;48]%N |}.
+
+Example ex_g_wf : dmrs_wf ex_g.
+Proof.
+  split.
+  - repeat (apply Forall_cons; [split; [cbn [map fst n_props]; repeat (apply NoDup_cons; [cbn; intuition congruence|]); apply NoDup_nil
+                                      | repeat (apply Forall_cons; [split; reflexivity|]); apply Forall_nil]|]).
+    apply Forall_nil.
+  - repeat (apply Forall_cons; [cbn; split; discriminate|]). apply Forall_nil.
+Qed.
+
+Example ex_g_len : length (enc_dmrs true true ex_g) = 54%nat.
+Proof. vm_compute. reflexivity. Qed.
